@@ -179,6 +179,14 @@ def _election(eseed, district=False, big=False, n_units=None, nan_cls=False):
             share = np.array([0.5 + lean.get(st, 0.0) for st in cur["postal_code"]]) + rs.normal(0, 0.02, len(cur))
             cur["results_dem"] = np.round(two * np.clip(share, 0.05, 0.95)).astype(int)
             cur["results_gop"] = (two - cur["results_dem"]).astype(int)
+        if not district:
+            # a few reporting units with a large third-party vote: their two-party votes are less than half of their
+            # baseline turnout while their turnout is ordinary - a turnout / party run that (through a frame shared with
+            # an earlier margin run) used the two-party votes as results weights would set them aside (FeedCopied)
+            rep_rows = cur.index[cur.percent_expected_vote >= 100]
+            for j in (rep_rows[4], rep_rows[19], rep_rows[33]):
+                for c in ("results_dem", "results_gop"):
+                    cur.loc[j, c] = int(cur.loc[j, c] * 0.4)
         # degenerate baselines (a precinct where one party, or nobody, had votes last time): how such a unit is
         # categorised must not depend on which estimands a request names (seeded change C13_C)
         for i, col in ((5, "baseline_dem"), (11, "baseline_gop"), (17, "baseline_dem"), (22, "baseline_gop"), (29, "baseline_turnout")):
@@ -215,7 +223,7 @@ def concrete_args(w, est, arg):
     return t["bootstrap" if est == "bootstrap" else "conformal"][arg]
 
 
-def call_estimates(client, pre, cur, est, a, office="G", gut="precinct", copy_pre=True, pointer=None):
+def call_estimates(client, pre, cur, est, a, office="G", gut="precinct", copy_pre=True, pointer=None, copy_cur=True):
     """One real get_estimates call; omitted arguments are really omitted.  copy_pre=False hands the caller's own
     baseline frame to the client (a caller that loads its baseline data once and polls all night does that)."""
     kw = dict(
@@ -231,9 +239,9 @@ def call_estimates(client, pre, cur, est, a, office="G", gut="precinct", copy_pr
         kw["model_parameters"] = json.loads(json.dumps(a["mp"]))
     if a["pis"] is OMIT or a["pis"] == OMIT:
         return client.get_estimates(
-            cur.copy(), synth.EID, office, list(a["estimands"]), percent_reporting_threshold=100, geographic_unit_type=gut, **kw
+            cur.copy() if copy_cur else cur, synth.EID, office, list(a["estimands"]), percent_reporting_threshold=100, geographic_unit_type=gut, **kw
         )
-    return client.get_estimates(cur.copy(), synth.EID, office, list(a["estimands"]), list(a["pis"]), 100, gut, **kw)
+    return client.get_estimates(cur.copy() if copy_cur else cur, synth.EID, office, list(a["estimands"]), list(a["pis"]), 100, gut, **kw)
 
 
 def run_history(w, hist):
@@ -246,6 +254,10 @@ def run_history(w, hist):
     # the caller's baseline frame: ONE object for the whole history (every call is handed the same frame, as a caller
     # that loads its baseline data once would do); whatever a run does to it must not change what a later run returns
     pre = pre.copy()
+    # ... and ONE feed frame object (a caller that keeps its feed frame between polls and between the margin run and the
+    # turnout / party runs of one poll): whatever a run writes into it must not change what a later run returns
+    # (ClientHistory.tla, switch FeedCopied; seeded changes C01_J / C09_J / C11_J / C12_J)
+    cur = cur.copy()
     client = ModelClient()
     out = []
     for ev in hist:
@@ -255,7 +267,7 @@ def run_history(w, hist):
             if ev["op"] == "est":
                 if ev["fresh"]:
                     client = ModelClient()
-                res = call_estimates(client, pre, cur, ev["est"], concrete_args(w, ev["est"], ev["arg"]), copy_pre=False)
+                res = call_estimates(client, pre, cur, ev["est"], concrete_args(w, ev["est"], ev["arg"]), copy_pre=False, copy_cur=False)
                 tok, tabs = result_digest(res)
             elif ev["op"] == "summary":
                 # the summary has its own argument tuple, independent of the arguments of the run it follows
